@@ -228,6 +228,29 @@ def storeC (c : NChar) (big : Bool) (shape : List Nat) (vs : List Int) : NpArr :
     strides := (List.range shape.length).map (fun k => ((c.size * prod (shape.drop (k + 1)) : Nat) : Int)),
     offset := 0, buf := (vs.map (itemBytes big c.size)).flatten }
 
+/-! ## representations as parameters: `Rep.build` -/
+
+/-- a representation of a numeric array that the builder below realises: dtype char (item width, signedness),
+    byte order, `step` ≥ 1 (the array is every `step`-th item of a larger C-contiguous buffer along its last
+    axis; 1 = contiguous), `pre` bytes of the buffer before the first item (a view that starts inside its base),
+    `fill`: what the bytes between and before the items hold -/
+structure Rep where
+  char : NChar
+  big : Bool
+  step : Nat
+  pre : Nat
+  fill : UInt8
+deriving Repr
+
+/-- the array holding `vs` (logical order) with shape `shape` in representation `r` -/
+def Rep.build (r : Rep) (shape : List Nat) (vs : List Int) : NpArr :=
+  { char := r.char, big := r.big, chars := 0, shape := shape,
+    strides := (List.range shape.length).map
+      (fun i => ((r.char.size * r.step * prod (shape.drop (i + 1)) : Nat) : Int)),
+    offset := r.pre,
+    buf := List.replicate r.pre r.fill ++
+      (vs.map fun v => itemBytes r.big r.char.size v ++ List.replicate ((r.step - 1) * r.char.size) r.fill).flatten }
+
 /-! ## a record of a sequence source -/
 
 /-- a value inside a source record -/
@@ -253,7 +276,8 @@ def Cell.val? : Cell → Option Val
   | .ustr cps => if cps.all (· < 128) then some (.str (cps.map UInt8.ofNat)) else none
   | .bstr b => some (.str b)
 
-/-- the flat path of `_sequencetype`, one record: `if isinstance(value, (str, bytes)):` the length goes in front and the
+/-- the flat path of `_sequencetype`, one record: a value given as a 0-d array is first taken as the scalar it holds
+    (`value[()]`, fix 87868e0: cells do not distinguish the two); `if isinstance(value, (str, bytes)):` the length goes in front and the
     field is `|S{padded}`; the tuple is assigned to a one-record array of the composite wire dtype (numpy converts
     every number into its big-endian wire field; text is encoded as ASCII) and its bytes are sent -/
 def encCellFlat (ty : Ty) : Cell → Except SrcErr Bytes
